@@ -9,7 +9,11 @@ package main
 // index and the identity of the configuration object it received; results, errors and panics are
 // logged per call; at the end every component that holds a *Conf reads Conf.Mark through it.
 //
-// input : sh=<P|F><n|s|p><E|-><E|-><I|M><a|f|n|s> form=c|f1|f2 fill=0|1 d=A/B/C u=A/B/C(_ = not set) k=N ff=i,j cf=i rf=i
+// With via=hook the same is driven through the glue the config decoder uses: the registry is installed as the
+// default registry, creation goes through pluginconfig.Hook / FactoryHook with a {"type": "x", "a": …} map and
+// the REAL config decoder is the fillConf (its invocations are not logged: no F events on that path).
+//
+// input : [via=hook] sh=<P|F><n|s|p><E|-><E|-><I|M><a|f|n|s> form=c|f1|f2 fill=0|1 d=A/B/C u=A/B/C(_ = not set) k=N ff=i,j cf=i rf=i
 // obs   : steps=<ev>|<ev>…><res>;…  views=serial:mark,…      | regpanic
 
 import (
@@ -18,11 +22,16 @@ import (
 	"reflect"
 	"strconv"
 	"strings"
+	"sync"
 
 	"verifharness/drv"
 
 	"github.com/yandex/pandora/core/plugin"
+	"github.com/yandex/pandora/core/plugin/pluginconfig"
 )
+
+// the default registry and the config package's hook table are process-global
+var hookMu sync.Mutex
 
 type Conf struct{ Mark, A, B, C int }
 
@@ -262,7 +271,10 @@ func (w *world) resOf(p interface{}, err error) string {
 		return "err.other:" + drv.Clean(err.Error())
 	}
 	c, ok := p.(*comp)
-	if !ok || c == nil {
+	if p == nil || (ok && c == nil) {
+		return "nil" // neither a component nor an error
+	}
+	if !ok {
 		return fmt.Sprintf("badproduct:%T", p)
 	}
 	cell := "-"
@@ -338,14 +350,36 @@ func c18Run(input string) string {
 	if kv["fill"] == "1" {
 		fillOpt = append(fillOpt, w.fill)
 	}
+	newPlugin := func() (interface{}, error) { return reg.New(ifaceT, "x", fillOpt...) }
+	newFactory := func(t reflect.Type) (interface{}, error) { return reg.NewFactory(t, "x", fillOpt...) }
+	if kv["via"] == "hook" {
+		hookMu.Lock()
+		defer hookMu.Unlock()
+		old := plugin.DefaultRegistry()
+		plugin.SetDefaultRegistry(reg)
+		defer plugin.SetDefaultRegistry(old)
+		data := func() interface{} { // parseConf consumes the map
+			m := map[string]interface{}{"type": "x"}
+			for i, key := range []string{"a", "b", "c"} {
+				if w.u[i] != nil {
+					m[key] = *w.u[i]
+				}
+			}
+			return m
+		}
+		newPlugin = func() (interface{}, error) { return pluginconfig.Hook(reflect.TypeOf(data()), ifaceT, data()) }
+		newFactory = func(t reflect.Type) (interface{}, error) {
+			return pluginconfig.FactoryHook(reflect.TypeOf(data()), t, data())
+		}
+	}
 	switch kv["form"] {
 	case "c":
 		for i := 0; i < k; i++ {
-			res := guarded(func() string { return w.resOf(reg.New(ifaceT, "x", fillOpt...)) })
+			res := guarded(func() string { return w.resOf(newPlugin()) })
 			w.endStep(res)
 		}
 	case "f1":
-		fac, err := reg.NewFactory(reflect.TypeOf((func() Iface)(nil)), "x", fillOpt...)
+		fac, err := newFactory(reflect.TypeOf((func() Iface)(nil)))
 		if err != nil {
 			w.endStep(w.resOf(nil, err))
 			break
@@ -357,7 +391,7 @@ func c18Run(input string) string {
 			w.endStep(res)
 		}
 	case "f2":
-		fac, err := reg.NewFactory(reflect.TypeOf((func() (Iface, error))(nil)), "x", fillOpt...)
+		fac, err := newFactory(reflect.TypeOf((func() (Iface, error))(nil)))
 		if err != nil {
 			w.endStep(w.resOf(nil, err))
 			break
@@ -382,12 +416,15 @@ func c18Run(input string) string {
 
 func main() {
 	drv.Main(&drv.Prop{ID: "C18", Gen: c18Gen, Run: c18Run, Class: c18Class, Workers: 8,
-		Rule: "every constructor shape (component|factory x config none|struct|*struct x ctor error x factory error x impl|interface product x default-config absent|fresh|nil|shared) x requested form (New, factory without/with error) x fillConf given or not, each run with a fault-free and a random fault plan and a random number k<=20 of calls; non-trivial = at least one call"})
+		Rule: "every constructor shape (component|factory x config none|struct|*struct x ctor error x factory error x impl|interface product x default-config absent|fresh|nil|shared) x requested form (New, factory without/with error) x fillConf given or not, each run with a fault-free and a random fault plan and a random number k<=20 of calls (registrations Register must refuse: one case per shape and round), plus for every valid shape x form one run through pluginconfig.Hook/FactoryHook with the real config decoder as fillConf; non-trivial = at least one call, or a refused registration"})
 }
 
 func c18Class(input, obs string) string {
 	kv := drv.KV(input)
 	c := kv["sh"][:2] + "-" + kv["form"]
+	if kv["via"] == "hook" {
+		c = "hook-" + c
+	}
 	switch {
 	case obs == "regpanic":
 		return c + "-regpanic"
@@ -413,9 +450,9 @@ func subset(r *rand.Rand, n int) string {
 }
 
 func c18Gen(r *rand.Rand, tier string) []string {
-	rounds := 1
+	rounds := 2
 	if tier == "thorough" {
-		rounds = 15
+		rounds = 40
 	}
 	var out []string
 	val := func() string { return strconv.Itoa(r.Intn(90) + 1) }
@@ -429,9 +466,15 @@ func c18Gen(r *rand.Rand, tier string) []string {
 						}
 						for _, ifc := range "IM" {
 							for _, df := range "afns" {
-								for _, form := range []string{"c", "f1", "f2"} {
+								// a registration Register must refuse: one case per shape and round is enough
+								refused := (cfg == 'n' && df != 'a') || (cfg == 's' && (df == 'n' || df == 's'))
+								pick := r.Intn(12)
+								for fi, form := range []string{"c", "f1", "f2"} {
 									for fill := 0; fill < 2; fill++ {
 										for faults := 0; faults < 2; faults++ {
+											if refused && pick != fi*4+fill*2+faults {
+												continue
+											}
 											k := r.Intn(21)
 											if r.Intn(8) == 0 {
 												k = r.Intn(3)
@@ -452,6 +495,25 @@ func c18Gen(r *rand.Rand, tier string) []string {
 											}
 											out = append(out, s)
 										}
+									}
+									if !refused {
+										// the same through pluginconfig.Hook / FactoryHook and the real decoder
+										k := r.Intn(21)
+										u := make([]string, 3)
+										for i := range u {
+											u[i] = "_"
+											if cfg != 'n' && r.Intn(2) == 0 { // the decoder refuses unknown keys
+												u[i] = val()
+											}
+										}
+										s := fmt.Sprintf("via=hook sh=%c%c%c%c%c%c form=%s fill=1 d=%s/%s/%s u=%s k=%d ff=",
+											fa, cfg, ce, fe, ifc, df, form, val(), val(), val(), strings.Join(u, "/"), k)
+										if r.Intn(2) == 0 {
+											s += fmt.Sprintf(" cf=%s rf=%s", subset(r, k+2), subset(r, k+2))
+										} else {
+											s += " cf= rf="
+										}
+										out = append(out, s)
 									}
 								}
 							}
